@@ -176,4 +176,4 @@ KNOWN_PREDICATES = {}
 
 # coverage-guided second driver (atheris / libFuzzer through Hypothesis' fuzz_one_input) for the core clauses: (clause, quick runs, thorough runs)
 from harness.covfuzz import cov_clauses  # noqa: E402
-CLAUSES += cov_clauses('C06', CLAUSES, [('regexp_to_nfa', 3000, 60000), ('dfa_to_regexp', 1500, 30000)])
+CLAUSES += cov_clauses('C06', CLAUSES, [('regexp_to_nfa', 3000, 20000), ('dfa_to_regexp', 1500, 10000)])
